@@ -44,13 +44,17 @@ Want(k, tag, st) ==
          [] k = "groupcount" -> IF st.rejectInvalid THEN rej({16}, tag) ELSE acc
          [] k = "grouporder" -> IF st.rejectInvalid THEN rej(any, 0) ELSE acc     \* which reason names a member-order defect is left open
          [] k = "duplicate" -> IF st.rejectInvalid THEN rej({13}, tag) ELSE acc
+         \* the same tag twice where the tag itself is tolerated by a setting (unknown fields allowed, user
+         \* defined fields not checked): the single defect is the repetition
+         [] k = "dup_tolerated" -> IF st.rejectInvalid /\ (IF tag < 5000 THEN st.allowUnknown ELSE (~st.checkUserDefined \/ st.allowUnknown))
+                                   THEN rej({13}, tag) ELSE unspec
 
 \* generator sanity: the case carries the structural defect it claims, and no other
 Sane(tdoc, adoc, r) ==
     LET s == Struct(tdoc, adoc, r.msgtype, r.fields) IN
     CASE r.defect.k = "msgtype" -> s = {"msgtype"}
       [] r.defect.k = "required" -> s = {"required"}
-      [] r.defect.k \in {"invalidtag", "notdefined"} -> s = {"notdefined"}
+      [] r.defect.k \in {"invalidtag", "notdefined", "dup_tolerated"} -> s = {"notdefined"}
       [] OTHER -> s = {}
 
 Fails(r) ==
